@@ -40,7 +40,7 @@ type svc struct {
 var schema = zyn.Object(map[string]zyn.Schema{"key": zyn.String()})
 
 func (s *svc) Type() ontology.ResourceType { return s.t }
-func (s *svc) Schema() zyn.Schema           { return schema }
+func (s *svc) Schema() zyn.Schema          { return schema }
 func (s *svc) RetrieveResource(_ context.Context, key string, _ gorp.Tx) (ontology.Resource, error) {
 	return ontology.NewResource(schema, ontology.ID{Type: s.t, Key: key}, "n", struct{ Key string }{key}), nil
 }
@@ -619,6 +619,23 @@ func main() {
 			fmt.Fprintln(os.Stderr, err)
 			os.Exit(2)
 		}
+		if v.Scenario == twoTxName {
+			for _, c := range twoTxCases() {
+				if len(v.Trace) == 1 && c.String() == v.Trace[0] {
+					err := runTwoTx(c)
+					var vv *vk.Violation
+					if errors.As(err, &vv) {
+						vv.Trace, vv.Scenario = v.Trace, v.Scenario
+						r.Report(vv)
+					} else if err != nil {
+						r.HarnessError("replay: %v", err)
+					} else {
+						vk.NoRepro()
+					}
+				}
+			}
+			r.Finish()
+		}
 		for _, sc := range append(scs, scenario{"5 ids, 2 types", []string{"t:1", "t:10", "t:11", "u:1", "ut:1"}, []string{"parent", "x"}, false, 5}) {
 			if sc.name == v.Scenario {
 				if err := seqx.Replay(mk(sc), v.Trace); err != nil {
@@ -644,6 +661,7 @@ func main() {
 		st := seqx.Explore(r, cfg)
 		seqx.Merge(r, st)
 	}
+	twoTxPart(r)
 	r.Set("rule", "BFS over define/delete resource, define/delete relationship (all ordered pairs incl. self-edges), delete-many and one-to-many, each directly / in a committed tx / in an aborted tx (and multi-op transactions), over identifiers that are string prefixes/suffixes of one another; dedup on (resources, typed edges[, tx view]); every new state: raw tables == model, parents/children/2-hop/descendant traversals == graph search, in the committed view and in the open tx")
 	r.Assume("memkv storage; go1.26.8 toolchain; relationship types share one graph for cycle detection (as the implementation's descendant walk does)")
 	r.Finish()
